@@ -275,9 +275,8 @@ Starts ==
     [] Cfg = "reqenc" -> {(0 :> <<>>) @@ (ENC :> <<ST_QENC>> \o EncPayload)}
     [] Cfg = "two"    -> {(0 :> <<>>) @@ (4 :> <<>>) @@ (ENC :> <<ST_QENC>> \o EncPayload)}
     [] Cfg = "push"   -> {(15 :> <<ST_PUSH, 3>>), (15 :> <<ST_PUSH>> \o EncVar2(3))}
-    [] Cfg = "uni"    -> {(3 :> a) @@ (11 :> b) :
-                            a \in {<<ST_CONTROL>>, EncVar2(ST_CONTROL)},
-                            b \in {EncVar(ST_WT) \o <<9>>, EncVar(ST_WT) \o EncVar2(9), <<ST_QDEC>>, <<33>>, EncVar2(33)}}
+    [] Cfg = "uni"    -> {(3 :> <<ST_CONTROL>>) @@ (11 :> b) : b \in {EncVar(ST_WT) \o <<9>>, <<ST_QDEC>>, EncVar2(33)}}
+                         \cup {(3 :> EncVar2(ST_CONTROL)) @@ (11 :> EncVar(ST_WT) \o EncVar2(9))}
 \* bytes of the longest stream prefix (stream type, push / session id)
 Base == CASE Cfg = "push" -> 3 [] Cfg = "uni" -> 4 [] OTHER -> 0
 Growth(sid) ==
